@@ -4,4 +4,12 @@ go 1.25.0
 
 require seehuhn.de/go/pdf v0.0.0
 
+require (
+	github.com/xdg-go/stringprep v1.0.4 // indirect
+	golang.org/x/text v0.40.0 // indirect
+	seehuhn.de/go/geom v0.7.5-0.20260817173237-f200797cc36c // indirect
+	seehuhn.de/go/membudget v0.7.4 // indirect
+	seehuhn.de/go/xmp v0.7.4 // indirect
+)
+
 replace seehuhn.de/go/pdf => /repo
